@@ -54,12 +54,6 @@ SetPath(cfg, path, val) ==
                 r == SetPath(sub, Tail(path), val) IN
             IF r.ok THEN [ok |-> TRUE, cfg |-> With(cfg, k, D(r.cfg))] ELSE [ok |-> FALSE, cfg |-> cfg]
 
-RECURSIVE ApplySets(_, _)
-ApplySets(cfg, sets) ==
-  IF sets = <<>> THEN [ok |-> TRUE, cfg |-> cfg]
-  ELSE LET r == SetPath(cfg, Head(sets).path, Head(sets).val) IN
-       IF r.ok THEN ApplySets(r.cfg, Tail(sets)) ELSE r
-
 \* split of an override key at unescaped dots; chars is a sequence of one-character strings. "\." is a literal dot.
 RECURSIVE SplitKey(_, _, _)
 SplitKey(chars, cur, acc) ==
@@ -68,6 +62,15 @@ SplitKey(chars, cur, acc) ==
   ELSE IF Head(chars) = "." THEN SplitKey(Tail(chars), "", Append(acc, cur))
   ELSE SplitKey(Tail(chars), cur \o Head(chars), acc)
 Split(chars) == SplitKey(chars, "", <<>>)
+
+\* an override is [path, val] (key already split), [chars, val] (raw key text) or [noeq |-> TRUE] (no "=": aborts the command)
+PathOf(s) == IF "chars" \in DOMAIN s THEN Split(s.chars) ELSE s.path
+RECURSIVE ApplySets(_, _)
+ApplySets(cfg, sets) ==
+  IF sets = <<>> THEN [ok |-> TRUE, cfg |-> cfg]
+  ELSE IF "noeq" \in DOMAIN Head(sets) THEN [ok |-> FALSE, cfg |-> cfg]
+  ELSE LET r == SetPath(cfg, PathOf(Head(sets)), Head(sets).val) IN
+       IF r.ok THEN ApplySets(r.cfg, Tail(sets)) ELSE r
 
 (* ---- the `asphalt run` pipeline ------------------------------------------------------------------------- *)
 Err(w) == [kind |-> "error", why |-> w]
@@ -81,7 +84,11 @@ RunPipeline(files, sets, flag, env) ==
   IF ~IsD(servicesV) THEN Err("services-not-a-dict")
   ELSE
   LET cfg1 == Without(cfg0, "services")
-      hasComp == "component" \in DOMAIN cfg1
+      hasComp == "component" \in DOMAIN cfg1 IN
+  \* a top-level component together with services.default: neither the statement nor the documentation decides
+  IF hasComp /\ "default" \in DOMAIN servicesV.v THEN [kind |-> "unspecified"]
+  ELSE
+  LET
       services == IF hasComp /\ "default" \notin DOMAIN servicesV.v
                   THEN With(servicesV.v, "default", D([x \in {"component"} |-> cfg1["component"]]))
                   ELSE servicesV.v
@@ -100,4 +107,9 @@ RunPipeline(files, sets, flag, env) ==
   ELSE IF "type" \notin DOMAIN final["component"].v THEN Err("no-type")
   ELSE [kind |-> "launch", type |-> final["component"].v["type"], comp |-> Without(final["component"].v, "type"),
         top |-> Without(final, "component")]
+
+\* the keyword arguments of run_application: the remaining top-level keys, with the two defaults the command fills in
+LaunchKwargs(top) ==
+  LET t1 == IF "backend" \in DOMAIN top THEN top ELSE With(top, "backend", [t |-> "s", v |-> "asyncio"])
+  IN IF "backend_options" \in DOMAIN t1 THEN t1 ELSE With(t1, "backend_options", D(Empty))
 =============================================================================
